@@ -356,18 +356,19 @@ def run(replay_path=None, replay=None):
                      "histories": len(r.records)}
         return r
 
-    deep_names = ("other_unit",) if t == "quick" else ("other_unit", "dB_same", "three_units", "uncertain", "angles", "dimensionless",
-                                                        "decimal_right", "array_left")
+    deep_names = ("other_unit",) if t == "quick" else ("other_unit", "dB_same", "uncertain", "dimensionless")
     deep_confs = [CONFIGS[k] for k in deep_names]
     deep_pure = C.tla_str(set(REP_PURE_QUICK if t == "quick" else REP_PURE))
     deep_inpl = '{"to", "abse_set"}' if t == "quick" else '{"to", "abse_set", "rebase"}'
-    deep_bounds = (3, 2, 1) if t == "quick" else (4, 2, 2)
+    deep_bounds = (3, 2, 1) if t == "quick" else (3, 2, 2)
+    deep4 = ([CONFIGS["other_unit"]], '{"add", "eq", "neg", "ctor_dict"}', '{"to", "abse_set"}', (4, 2, 2))
     key_confs = [CONFIGS[k] for k in ("other_unit", "dB_same", "uncertain")]
     full_bounds = (2, 1, 2)
     # 1a. the repaired design satisfies the property
     rep_runs = [("repaired_design", [CONFIGS[k] for k in QUICK_REPAIRED] if t == "quick" else configs, "AllPureOps", "InplaceOps", full_bounds, False)]
     if t != "quick":
         rep_runs.append(("repaired_design_deep", deep_confs, deep_pure, deep_inpl, deep_bounds, True))
+        rep_runs.append(("repaired_design_deep4", deep4[0], deep4[1], deep4[2], deep4[3], True))
         rep_runs.append(("repaired_design_3", key_confs, "AllPureOps", "InplaceOps", (3, 1, 2), False))
     for name, confs, pure, inpl, bounds, view in rep_runs:
         ra = model(name, confs, pure, inpl, True, bounds, ["Frame", "NoShare", "SameObjects"], emit=False, view=view, prop=not view)
@@ -393,6 +394,10 @@ def run(replay_path=None, replay=None):
     rd = model("pinned_deep", deep_confs, deep_pure, deep_inpl, False, deep_bounds, ["AllNamed"], view=True, prop=False)
     recs += [dict(r, src="deep") for r in rd.records]
     rd.records = None
+    if t != "quick":
+        rd4 = model("pinned_deep4", deep4[0], deep4[1], deep4[2], False, deep4[3], ["AllNamed"], view=True, prop=False)
+        recs += [dict(r, src="deep") for r in rd4.records if len(r["hist"]) == 4]
+        rd4.records = None
     recs.sort(key=lambda r: (r["src"], json.dumps([r["cfg"], [s["a"] for s in r["hist"]]], sort_keys=True)))
     # 2. replay
     jobs = []
